@@ -6,7 +6,7 @@ redundant parentheses up to that depth), leaves ranging over truth classes of a 
 atoms; plus the complete atom space on its own, all operator spellings, nested conditionals and
 \\whiledo loops of 0..6 iterations.  Oracle: fold over the generated tree (vp/refs/c19_model.py).
 """
-import re
+import re, signal, contextlib
 from vp import core, state
 from vp.refs import c19_model as M
 
@@ -82,6 +82,39 @@ def loop_text(k):
     return 'wqa' + 'wqb' * k + 'wqz%d' % k
 
 
+class HardTimeout(BaseException):
+    """Not an Exception: plasTeX's `except Exception` / logging handlers must not be able to absorb it."""
+
+
+_ARMED = False
+
+
+def _tick(signum, frame):
+    if _ARMED:
+        raise HardTimeout()
+
+
+def _disarm():
+    global _ARMED
+    _ARMED = False
+    signal.setitimer(signal.ITIMER_REAL, 0)
+
+
+@contextlib.contextmanager
+def time_limit(seconds):
+    """Like core.time_limit, but the alarm keeps firing every 0.2 s until the block is left: a timeout that is
+    swallowed somewhere (bare except, __del__, generator cleanup) cannot turn an endless loop into a hung worker."""
+    global _ARMED
+    old = signal.signal(signal.SIGALRM, _tick)
+    _ARMED = True
+    signal.setitimer(signal.ITIMER_REAL, seconds, 0.2)
+    try:
+        yield
+    finally:
+        _disarm()
+        signal.signal(signal.SIGALRM, old)
+
+
 def new_tex():
     from plasTeX.TeX import TeX
     state.reset()
@@ -96,12 +129,15 @@ def observe(src, limit=5.0):
     """Process `src` as a fresh document with the ifthen package loaded.
     -> visible text without whitespace | 'raises:<Type>' | 'timeout'"""
     try:
-        with core.time_limit(limit):
-            tex = new_tex()
-            tex.input(src)
-            doc = tex.parse()
-            return WS.sub('', doc.textContent)
-    except core.Timeout:
+        try:
+            with time_limit(limit):
+                tex = new_tex()
+                tex.input(src)
+                doc = tex.parse()
+                return WS.sub('', doc.textContent)
+        finally:
+            _disarm()
+    except HardTimeout:
         return 'timeout'
     except Exception as e:
         return 'raises:%s' % type(e).__name__
@@ -129,12 +165,15 @@ class Session(object):
         self.n += 1
         tex = self.tex
         try:
-            with core.time_limit(limit):
-                tex.input(body)
-                frag = tex.ownerDocument.createDocumentFragment()
-                tex.parse(frag)
-                return WS.sub('', frag.textContent)
-        except core.Timeout:
+            try:
+                with time_limit(limit):
+                    tex.input(body)
+                    frag = tex.ownerDocument.createDocumentFragment()
+                    tex.parse(frag)
+                    return WS.sub('', frag.textContent)
+            finally:
+                _disarm()
+        except HardTimeout:
             self.tex = None
             return 'timeout'
         except Exception as e:
@@ -277,10 +316,10 @@ def classify(case, obs):
 
 
 def limit_for(case):
-    return 2.0 if case['part'] == 'W' else 20.0
+    return 1.5 if case['part'] == 'W' else 20.0
 
 
-CONFIRM_LIMIT = 12.0
+CONFIRM_LIMIT = 6.0
 
 
 def observe_case(case, full_preamble=False):
